@@ -603,6 +603,30 @@ def s4(repo, res):
 
 
 # ------------------------------------------------------------------------------------------------ S5 / R4
+_ALLOW_NONE_DEFAULT = {}
+
+
+def init_allow_none_defaults(repo):
+    """validator name -> default of its `allow_None` parameter (True / False), read from the definitions"""
+    _ALLOW_NONE_DEFAULT.clear()
+    for m, qn, fn, cl in repo.all_functions():
+        if cl is not None or not is_validator_name(fn.name):
+            continue
+        ps = fn.args.posonlyargs + fn.args.args
+        dflt = dict(zip([a.arg for a in ps][len(ps) - len(fn.args.defaults):], fn.args.defaults))
+        dflt.update({a.arg: d for a, d in zip(fn.args.kwonlyargs, fn.args.kw_defaults) if d is not None})
+        if "allow_None" in dflt:
+            _ALLOW_NONE_DEFAULT[fn.name] = lit(dflt["allow_None"])
+
+
+def admits_none(call):
+    """the call hands None through: `allow_None=True` given, or not given and True by the validator's default"""
+    v = kw(call, "allow_None")
+    if v is not None:
+        return lit(v) is True
+    return _ALLOW_NONE_DEFAULT.get(call_name(call)) is True
+
+
 class NoneClient(BaseClient):
     """('N', name): name may be None (bound from a validator called with allow_None=True)"""
 
@@ -700,7 +724,7 @@ class NoneClient(BaseClient):
             if isinstance(s, ast.Assign):
                 v = s.value
                 may_none = isinstance(v, ast.Call) and is_validator_name(call_name(v)) and (
-                    lit(kw(v, "allow_None")) is True or call_name(v) in ("check_format_input_vertices", "check_format_input_cylinder_segment"))
+                    admits_none(v) or call_name(v) in ("check_format_input_vertices", "check_format_input_cylinder_segment"))
                 alias = self._key(v)
                 for t in s.targets:
                     k = self._key(t)
@@ -715,6 +739,7 @@ class NoneClient(BaseClient):
 
 
 def none_flow(repo, res, rule="S5", only_classes=None):
+    init_allow_none_defaults(repo)
     n = 0
     for c in repo.cls_by_key.values():
         if not c.mod.name.startswith(OBJ_PKG):
@@ -726,7 +751,7 @@ def none_flow(repo, res, rule="S5", only_classes=None):
 
             def hook(s, k, x, hits=hits):
                 hits.append((s, k, x))
-            has = any(isinstance(x, ast.Call) and is_validator_name(call_name(x)) and lit(kw(x, "allow_None")) is True for x in ast.walk(fn))
+            has = any(isinstance(x, ast.Call) and is_validator_name(call_name(x)) and admits_none(x) for x in ast.walk(fn))
             if not has:
                 continue
             n += 1
